@@ -105,6 +105,10 @@ class NTPClient(Service, discriminator="ntp-client"):
         if not isinstance(payload, NTPPacket):
             self.sys_log.warning(f"{self.name}: Failed to parse NTP update")
             return False
+        if payload.ntp_reply is None:
+            # an NTP packet without a reply (another client's request addressed to this host) carries no time
+            self.sys_log.warning(f"{self.name}: NTP packet carries no reply")
+            return False
         if payload.ntp_reply.ntp_datetime:
             self.time = payload.ntp_reply.ntp_datetime
             return True
